@@ -25,6 +25,6 @@ theorem InvE.pres_g3 {cfg : Cfg} {s s' : State} {l : Label} (hI : InvE cfg s)
   all_goals (try subst_vars)
   all_goals (try dsimp only)
   all_goals (grind [upd, Root.kind, TS.active, TS.live, TS.ended, TS.isStopping, failTS, cancelSubs,
-    cancelRoots, Pend.ts, stopReqNow])
+    cancelRoots, cancelRootsV, Pend.ts, stopReqNow])
 
 end Kopf.C20
